@@ -85,6 +85,23 @@ def _cfgs(tier, rng):
             c["level"] = int(rng.integers(0, 2))
             c["evaluator"] = str(rng.choice(["rbf", "kernel"]))
             cfgs.append(c)
+    # other KINDS of system for the same molecules (every seeding round on a new axis of variation found gaps, so the axes
+    # a user can reach by changing only the molecule are covered up front): Cartesian d functions, an f / g shell, Bohr input
+    kinds = [dict(family="sl-npa", spin="rks", system="cart"), dict(family="vj-mgga", spin="uks", system="cart", plan_type="gaussian", interp="onsite_direct"),
+             dict(family="vi-mgga", spin="rks", system="fshell", plan_type="spline", interp="onsite_spline"), dict(family="sdmx1", spin="rks", system="fshell"),
+             dict(family="vk-gga", spin="rks", system="bohr", plan_type="gaussian", interp="onsite_direct"), dict(family="vij-mgga", spin="uks", system="gshell", plan_type="gaussian", interp="onsite_direct"),
+             dict(family="sdmxg", spin="uks", system="gshell"), dict(family="vi-gga", spin="rks", system="cart", plan_type="spline", interp="onsite_direct")]
+    for rep in range(reps):
+        for m in kinds[:4] if tier == "quick" else kinds:
+            c = dict(m)
+            c["mol"] = str(rng.choice(["NH2", "CH3"] if c["spin"] == "uks" else ["H2O", "HF"]))
+            c["basis"] = "def2-svp" if c["system"] == "cart" else "6-31g"
+            c["level"] = int(rng.integers(0, 2))
+            c["mode"] = "SEP"
+            c["evaluator"] = "rbf"
+            c["mix"] = "pure"
+            c["model"] = "xc1"
+            cfgs.append(c)
     return cfgs
 
 
@@ -109,7 +126,7 @@ def run_case(case, rec):
     dm = gen.psd_dm(mol, rng, nspin)
     has_nldf = model.settings.has_nldf
     tol = 1e-5 if has_nldf else 1e-7
-    for k in ("family", "spin", "mol", "basis", "level", "mode", "evaluator", "mix", "plan_type", "interp", "model",
+    for k in ("family", "spin", "mol", "basis", "level", "mode", "evaluator", "mix", "plan_type", "interp", "model", "system",
               "mul_base"):
         if cfg.get(k) is not None:
             rec.tag(k, cfg[k])
